@@ -26,6 +26,7 @@ var (
 	errOneAllocateOnly               = errors.New("only one Allocate() caller is allowed")
 	errAlreadyAllocated              = errors.New("already allocated")
 	errNonSTUNMessage                = errors.New("non-STUN message from STUN server")
+	errIndicationNotFromServer       = errors.New("relayed data not from the TURN server")
 	errFailedToDecodeSTUN            = errors.New("failed to decode STUN message")
 	errUnexpectedSTUNRequestMessage  = errors.New("unexpected STUN request message")
 	errRelayAddressGeneratorNil      = errors.New("RelayAddressGenerator is nil")
